@@ -391,9 +391,15 @@ package store
 //@   modifies $rdpos, $hashdata
 //@   ensures [result] {C06,C19} err == nil ==> idx != nil && fresh(idx)
 
+// every file under refs/heads is loaded as a branch, with the id its file holds (C10; C16: a file that cannot be
+// loaded stops the command, it is not skipped)
 //@ func NewRefs
 //@   returns r, err
 //@   ensures [result] {C10,C19} err == nil ==> r != nil && fresh(r)
+//@   ensures [loaded] {C10,C16} err == nil && isDir(fs, headsDir(rootGoitPath)) ==> forall n string :: validName(n) && !isAbsent(fs, refPath(rootGoitPath, n)) ==> exists k int :: 0 <= k && k < len(r.Heads) && r.Heads[k] != nil && r.Heads[k].Name == n && string(r.Heads[k].hash) == unhex(content(fs, refPath(rootGoitPath, n)))
+//@   loop 0:
+//@     invariant r != nil && fresh(r)
+//@     invariant [loaded-so-far] {C10,C16} forall j int :: 0 <= j && j < it ==> exists k int :: 0 <= k && k < len(r.Heads) && r.Heads[k] != nil && r.Heads[k].Name == deName(files[j]) && string(r.Heads[k].hash) == unhex(content(fs, refPath(rootGoitPath, deName(files[j]))))
 
 //@ func NewHead
 //@   returns h, err
